@@ -2,7 +2,7 @@
 combinators over two SubjectThreads inputs and merge_all over hot / synchronous inner observables."""
 import ileave
 
-OP2 = ["merge", "zip", "(combine_latest add)", "with_latest_from", "take_until", "skip_until", "sample"]
+OP2 = ["merge", "zip", "(combine_latest add)", "with_latest_from", "take_until", "skip_until", "sample", "buffer"]
 
 OP2_SCRIPTS = [
     ["(a (n 1)) (a (n 2))", "(b (n 5)) (b (n 6))"],
